@@ -135,13 +135,14 @@ def build():
             3: ("next-scalar", {"C03": "*"}), 4: ("lookup-overshoot-rewind", {"C07": "*", "C08": "*", "C16": "*"})}
     STEP[5] = ("name-order", {"C02": "*", "C07": "*", "C08": "*"})
     STEP[6] = ("malformed-token-any-scan", {"C08": "*", "C02": "*"})
+    STEP[7] = ("lookup-skip-then-overshoot", {"C16": "*", "C07": "*", "C06": "*"})
     STEP_DEFS = {4: ["VC_STEP_MAXBUF=300"]}
     # (the same step with max_depth 255 / symbolic and a state array of exactly that size does not fit in memory: the
     #  limit of the 8-bit depth counter at max_depth = 255 is NOT covered; max_depth in {1,2,3} is)
     for sc, (nm, pr) in STEP.items():
         J.append(Job("E2/step/" + nm, "E3", "contracts/h_step.c", "h_step", pr, defs=["VC_SCEN=%d" % sc] + STEP_DEFS.get(sc, []),
-                     cbmc_args=["--unwind", "9", "--unwindset", "_advance_parsing.0:3", "--unwinding-assertions", "--slice-formula"], timeout=1800, mem_gb=8,
-                     note="real _advance_parsing from a symbolic pre-state of one shape; the token loop provably runs <= 2 iterations (unwinding assertion), so this is COMPLETE for that shape; tokens within the first 64 bytes behind the cursor"))
+                     cbmc_args=["--unwind", "9", "--unwindset", "_advance_parsing.0:%d" % (5 if sc == 7 else 3), "--unwinding-assertions", "--slice-formula"], timeout=1800, mem_gb=8,
+                     note="real _advance_parsing from a symbolic pre-state of one shape; the token loop provably runs <= 2 (scenario 7: 4) iterations (unwinding assertion), so this is COMPLETE for that shape; tokens within the first 64 bytes behind the cursor"))
 
     also_thorough("E2/step/next-scalar", {"C10": "*", "C06": "*"})
 
